@@ -462,17 +462,21 @@ Proof.
   destruct auth as [c|]; [|assumption]. destruct (clients s c) as [cl|]; [|assumption].
   destruct (negb (args_has (cl_grants cl) _)); [assumption|].
   destruct (key_of s dev) as [k|]; [|assumption].
+  destruct (used_device cfg (st s) k) as [rid|].
+  { change (Inv (set_store (set_store s (revoke_access (st s) rid))
+                           (fst (revoke_refresh (st (set_store s (revoke_access (st s) rid))) rid)))).
+    apply Inv_revoke_refresh. apply Inv_revoke_access. assumption. }
   destruct (device (st s) k) as [[stt r]|] eqn:Ed; [|assumption].
   repeat match goal with |- context [if ?c then fail s _ else _] => destruct c; [assumption|] end.
   match goal with |- context [grant_tokens ?s2 ?stored ?w] =>
     pose proof (Inv_grant_tokens s2 stored w) as G; destruct (grant_tokens s2 stored w) as [s3 minted] end.
   cbn [fst] in *. apply G; clear G; cbn.
-  - now apply Inv_delete_device.
+  - now apply Inv_invalidate_device.
   - exact (proj2 (inv_owner_fresh s I _ _ _ (inv_owner_device s I _ _ _ Ed))).
   - intros k' r' H Heq. exact (inv_access_device s I _ _ H k stt r Ed (eq_sym Heq)).
   - intros k' r' H Heq. exact (inv_refresh_device s I _ _ _ H k stt r Ed (eq_sym Heq)).
   - intros k' r' H Heq. exact (inv_code_device s I _ _ _ H k stt r Ed (eq_sym Heq)).
-  - eapply delete_device_no_device; eassumption.
+  - eapply invalidate_device_no_device; eassumption.
 Qed.
 
 Lemma Inv_redeem cfg s auth code redirect v vh : Inv s -> Inv (fst (redeem cfg s auth code redirect v vh)).
